@@ -119,6 +119,10 @@ func (c *P2Claims) SetCertificationReference(v string) error {
 }
 
 func (c *P2Claims) SetSoftwareComponents(scs []ISwComponent) error {
+	if scs == nil {
+		return fmt.Errorf("%w: there MUST be at least one entry", ErrMandatoryClaimMissing)
+	}
+
 	if c.SwComponents == nil {
 		c.SwComponents = &SwComponents[*SwComponent]{}
 	}
